@@ -73,7 +73,11 @@ def record(family, out, profile="release", timeout=1200, **kw):
     """Drive the real library and write an NDJSON trace."""
     b = harness_bin(profile)
     args = [b, "record", family, "out=" + out] + ["%s=%s" % (k, v) for k, v in kw.items()]
+    if os.path.exists(out + ".hang.json"):
+        os.remove(out + ".hang.json")
     p = sh(args, timeout=timeout, check=False)
+    if p.returncode == 7 and os.path.exists(out + ".hang.json"):
+        return out          # the watchdog saw a call that did not return: the caller reports it
     if p.returncode != 0:
         # the harness catches panics of the code under test; a crash of the harness itself is a tool error
         raise ToolError("harness record %s failed (%d): %s" % (family, p.returncode, p.stdout[-3000:]))
@@ -211,7 +215,7 @@ def split_sessions(lines, reset_events):
     return sessions
 
 
-def tv(module, cfg, trace_path, reset_events=(), shards=10, max_rejects=8, tag=None):
+def tv(module, cfg, trace_path, reset_events=(), shards=10, max_rejects=8, tag=None, prefix_events=()):
     """Validate a recorded NDJSON trace against a trace spec.  The trace is cut into sessions,
     dealt over `shards` single-worker TLC processes; a rejected session is reported, removed, and
     the rest of its shard is validated again, so one rejection does not hide later ones.
@@ -220,6 +224,8 @@ def tv(module, cfg, trace_path, reset_events=(), shards=10, max_rejects=8, tag=N
     with open(trace_path) as f:
         raw = [ln for ln in f.read().split("\n") if ln.strip()]
     lines = [(ln, json.loads(ln)) for ln in raw]
+    prefix = [x for x in lines if x[1].get("ev") in prefix_events]      # e.g. a Config event every shard needs
+    lines = [x for x in lines if x[1].get("ev") not in prefix_events]
     sessions = split_sessions(lines, set(reset_events))
     if not sessions:
         raise ToolError("empty trace " + trace_path)
@@ -243,6 +249,8 @@ def tv(module, cfg, trace_path, reset_events=(), shards=10, max_rejects=8, tag=N
             path = os.path.join(WORK, "tlc", "%s-shard%d.ndjson" % (tag, bi))
             os.makedirs(os.path.dirname(path), exist_ok=True)
             with open(path, "w") as f:
+                for ln, _ in prefix:
+                    f.write(ln + "\n")
                 for s in bucket:
                     for ln, _ in s:
                         f.write(ln + "\n")
@@ -252,7 +260,9 @@ def tv(module, cfg, trace_path, reset_events=(), shards=10, max_rejects=8, tag=N
                 os.remove(path)
                 return rejects, states
             # locate the session holding the unmatched line
-            k = r["line"]
+            k = r["line"] - len(prefix)
+            if k <= 0:
+                raise ToolError("trace prefix event rejected: %s" % r)
             pos = 0
             for si, s in enumerate(bucket):
                 if pos + len(s) >= k:
